@@ -339,3 +339,67 @@ class ValidatorFromDict(Contract):
 
     def frame_ok(self, I, inp, obj, name):
         return False
+
+
+@register
+class ValidatorInit(Contract):
+    """SigmaValidator.__init__: one instance per validator class, built with the configuration of ITS identifier; the exclusion table of
+    the new object has the caller's entries - and the CALLER's table and its sets are left as they are (a table may be used for several
+    validator objects with different validator subsets)"""
+    id = "C19.SigmaValidator.__init__"
+    target = f"{VA}:SigmaValidator.__init__"
+    props = ("C19",)
+    cases = ("two-classes", "subset", "none")
+
+    def setup(self, E):
+        E.summaries["sigma.validators.core:validator_classname_to_identifier"] = lambda I, so, a, k: {"DanglingDetectionValidator": "dangling_detection", "AllOfThemConditionValidator": "all_of_them_condition",
+                                                                                                    "DanglingConditionValidator": "dangling_condition"}[I.force(a[0])]
+        E._c19b_inst = []
+
+        def hook(I, cinfo, args, kwargs):
+            from pyvc.interp import UNBOUND
+            if cinfo.name.endswith("Validator") and cinfo.name != "SigmaValidator":
+                o = SObj(cinfo, {}, lazy=True)
+                E._c19b_inst.append((cinfo.name, list(args), dict(kwargs), o))
+                return o
+            return UNBOUND
+        E.instantiate_hook = hook
+
+    def args(self, I, case):
+        del I.E._c19b_inst[:]
+        idx = I.E.index
+        VC = "sigma.validators.core.condition"
+        A, B, C = (ClassRef(idx.lookup(f"{VC}:{n}")) for n in ("DanglingDetectionValidator", "AllOfThemConditionValidator", "DanglingConditionValidator"))
+        classes = {"two-classes": [A, B], "subset": [B], "none": []}[case]
+        rid1, rid2 = SObj("UUID", {"n": 1}), SObj("UUID", {"n": 2})
+        s1, s2 = {A, C}, {B}
+        excl = {rid1: s1, rid2: s2, None: {A}}
+        cfg_b = {"some_option": I.fresh("opt", "str")}
+        conf = {"all_of_them_condition": cfg_b}
+        me = SObj(idx.lookup(f"{VA}:SigmaValidator"), {})
+        return {"self": me, "args": [classes, excl, conf], "classes": classes, "excl": excl, "sets": (s1, s2), "snap": ({A, C}, {B}), "keys": [rid1, rid2, None], "cfg_b": cfg_b, "A": A, "B": B, "case": case}
+
+    def post(self, I, inp, r):
+        c, me = I.ctx, inp["self"]
+        inst = I.E._c19b_inst
+        want = [cl.info.name for cl in inp["classes"]]
+        c.require(sorted(x[0] for x in inst) == sorted(want) and all(not x[1] for x in inst), "one instance per validator class")
+        for name, a, k, o in inst:
+            if name == "AllOfThemConditionValidator":
+                c.require(set(k) == {"some_option"} and k["some_option"] is inp["cfg_b"]["some_option"], "a validator is built with the configuration given under its identifier")
+            else:
+                c.require(k == {}, "a validator without configuration is built with defaults")
+        vs = me.fields.get("validators")
+        vs = I.force(vs) if not isinstance(vs, (set, list)) else vs
+        c.require(isinstance(vs, (set, list)) and len(vs) == len(inst) and all(any(v is x[3] for v in vs) for x in inst), "validators: exactly those instances")
+        ex = me.fields.get("exclusions")
+        c.require(isinstance(ex, dict) and len(ex) == 3 and all(any(k is kk for kk in ex) for k in inp["keys"]), "exclusions: the caller's entries")
+        s1, s2 = inp["sets"]
+        c.require(list(inp["excl"]) == inp["keys"] and inp["excl"][inp["keys"][0]] is s1 and inp["excl"][inp["keys"][1]] is s2 and s1 == inp["snap"][0] and s2 == inp["snap"][1],
+                  "the caller's exclusion table and its sets are not modified (they also name validators this object does not run)", kind="FRAME")
+        if isinstance(ex, dict):
+            got1 = [v for k, v in ex.items() if k is inp["keys"][0]]
+            c.require(len(got1) == 1 and set(I.force(got1[0])) == inp["snap"][0], "an entry keeps every excluded class, also classes of validators that are not instantiated here")
+
+    def frame_ok(self, I, inp, obj, name):
+        return obj is inp["self"] and name in ("validators", "exclusions")
